@@ -994,9 +994,23 @@ impl MsgCase {
     }
 }
 
+/// A valid packet near the largest possible size: 70..=79 channels of 400..=511 samples.
+pub fn pwb_big() -> impl Strategy<Value = PwbCase> {
+    (pwb_valid(), prop_oneof![2 => Just(79u32), 1 => 70u32..=79], prop_oneof![3 => Just(511u16), 1 => Just(510u16), 1 => 400u16..=511], any::<u64>()).prop_map(|(mut m, k, requested, seed)| {
+        let sent: u128 = (1u128 << k) - 1;
+        m.sent_mask = sent;
+        m.requested = requested;
+        m.blocks = oracles::pwb::mask_bits(sent)
+            .into_iter()
+            .map(|c| PwbBlock { channel: c, size: requested, pad: if requested % 2 == 1 { vec![0, 0] } else { vec![] }, samples: (0..requested as u64).map(|t| ((seed ^ c as u64).wrapping_mul(0x9E37_79B9_7F4A_7C15).wrapping_add(t * 77) >> 50) as i16 - 2000).collect() })
+            .collect();
+        PwbCase { base: m, muts: vec![], edits: vec![] }
+    })
+}
+
 pub fn msg_case() -> impl Strategy<Value = MsgCase> {
     (
-        pwb_case(),
+        prop_oneof![39 => pwb_case(), 1 => pwb_big()],
         any::<u16>(),
         prop_oneof![4 => 2u8..=12, 1 => Just(1u8), 1 => 13u8..=40],
         (0u8..71, 0u8..4, any::<u32>(), any::<u16>()),
